@@ -1102,7 +1102,8 @@ namespace
     std::map<void*, int> in_handler;
     std::map<void*, int> connected_done;
     std::atomic<long long> overlaps(0), order_violations(0), handled(0),
-                           srv_sent(0), srv_connected(0), srv_disconnected(0);
+                           srv_sent(0), srv_connected(0), srv_disconnected(0), dup_disconnected(0);
+    std::map<void*, int> disconnected_seen;     // raw connection pointer -> disconnected events since its connected event
 
     auto enter([&](void* key, bool is_connected_handler)
     {
@@ -1135,6 +1136,10 @@ namespace
           srv.socket_connected_event([&](http_connection::weak_pointer weak_ptr)
             {
               void* key(weak_ptr.lock().get());
+              {
+                std::lock_guard<std::mutex> lock(in_handler_mutex);
+                disconnected_seen[key] = 0;
+              }
               enter(key, true);
               std::this_thread::sleep_for(std::chrono::microseconds(connected_us));
               ++srv_connected;
@@ -1147,6 +1152,8 @@ namespace
               ++srv_disconnected;
               leave(key, false);
               std::lock_guard<std::mutex> lock(in_handler_mutex);
+              if (key && (++disconnected_seen[key] > 1))
+                ++dup_disconnected;           // a second disconnected event for one connection
               connected_done.erase(key);    // the address may be reused
               in_handler.erase(key);
             });
@@ -1185,6 +1192,7 @@ namespace
       {
         std::string perr;
         const std::string get("GET /hello HTTP/1.1\r\nHost: localhost\r\n\r\n");
+        const std::string get_close("GET /hello HTTP/1.1\r\nHost: localhost\r\nConnection: close\r\n\r\n");
         // rounds=<n>: n-1 short-lived connections first (connect, a few requests, close), so that connections come and
         // go while others are being served (the server's collections are inserted into / erased from concurrently)
         for (long long round(1); round < rounds; ++round)
@@ -1195,7 +1203,9 @@ namespace
           std::string ebuf;
           for (long long r(0); r < 2; ++r)
           {
-            if (!early.write_all(get, 2000))
+            // every other short-lived connection asks the SERVER to end it (`Connection: close` on its last request)
+            const bool server_closes((round % 2 == 0) && (r == 1));
+            if (!early.write_all(server_closes ? get_close : get, 2000))
               break;
             ++sent;
             int status(0);
@@ -1203,6 +1213,18 @@ namespace
               ++answered;
             else
               break;
+            if (server_closes)
+            {
+              // wait for the server's close before closing this end
+              std::string junk;
+              auto t0(clock_type::now());
+              while (ms_since(t0) < 1000)
+              {
+                Peer::Rd rd(early.read_some(junk, 1000 - ms_since(t0)));
+                if (rd != Peer::Rd::Data)
+                  break;
+              }
+            }
           }
           early.close();
         }
@@ -1275,6 +1297,7 @@ namespace
        << " srv_sent=" << srv_sent.load()
        << " srv_connected=" << srv_connected.load()
        << " srv_disconnected=" << srv_disconnected.load()
+       << " dup_disconnected=" << dup_disconnected.load()
        << " closed_early=" << closed_early.load()
        << " connect_fail=" << connect_fail.load()
        << " bad_status=" << bad_status.load()
